@@ -357,6 +357,40 @@ func extractWire(p *pkgs, out string) {
 			fail("httpgrpc/client.go", "rChCap", "no `rCh: make(chan …)` in newClientStream")
 		}
 	}
+	// the tests made on a frame's size preface: client (doHttpCall: trailer frame, limit) and decoder (readProtoMessage)
+	for _, fn := range []struct{ recv, goName, lean, file string }{{"clientStream", "doHttpCall", "clientSizeTests", "httpgrpc/client.go"}, {"", "readProtoMessage", "decoderSizeTests", "httpgrpc/io.go"}} {
+		var fd *ast.FuncDecl
+		if fn.recv != "" {
+			_, fd = p.methodDecl(mod+"/httpgrpc", fn.recv, fn.goName)
+		} else {
+			_, fd = p.funcDecl(mod+"/httpgrpc", fn.goName)
+		}
+		if fd == nil {
+			fail(fn.file, fn.lean, "%s not found", fn.goName)
+			continue
+		}
+		var tests []string
+		ast.Inspect(fd, func(n ast.Node) bool {
+			is, ok := n.(*ast.IfStmt)
+			if !ok {
+				return true
+			}
+			if be, ok := is.Cond.(*ast.BinaryExpr); ok {
+				if id, ok := be.X.(*ast.Ident); ok && id.Name == "sz" {
+					tests = append(tests, types.ExprString(be))
+				}
+			}
+			return true
+		})
+		l.printf("def %s : List String := [", fn.lean)
+		for i, t := range tests {
+			if i > 0 {
+				l.printf(", ")
+			}
+			l.printf("%s", leanStr(t))
+		}
+		l.printf("]\n")
+	}
 	// asMetadata hands every header value over whole: the functions it calls (sorted, distinct)
 	{
 		_, fd := p.funcDecl(mod+"/httpgrpc", "asMetadata")
